@@ -90,7 +90,9 @@ func (r restClientProtocol) extractProtocolRequestHeaders(op *operation, headers
 	}
 	headers.Del("Content-Type")
 
-	if timeoutStr := headers.Get("X-Server-Timeout"); timeoutStr != "" {
+	timeoutStr := headers.Get("X-Server-Timeout")
+	headers.Del("X-Server-Timeout")
+	if timeoutStr != "" {
 		timeout, err := restDecodeTimeout(timeoutStr)
 		if err != nil {
 			return requestMeta{}, err
